@@ -144,4 +144,10 @@ def op_variants(op, spec, le, asz, osz=4):
         outs.append(bytes(b))
         if not spec:
             break
+    # the ends of the 64-bit range, whose LEB128 forms take all ten bytes
+    if list(spec) == ['sleb']:
+        outs.append(bytes([op]) + sleb(-2 ** 63))
+        outs.append(bytes([op]) + sleb(-2 ** 62 - 5))
+    elif list(spec) == ['uleb'] and op in (0x10, 0x23):
+        outs.append(bytes([op]) + uleb(2 ** 64 - 1))
     return outs
